@@ -247,8 +247,20 @@ class VTKWriter:
         allFieldsAreEmpty = not self.cellFields
         if not allFieldsAreEmpty:
             ncells = self.mesh.conns.shape[0]
-            vtkFile.write('CELL_DATA {}\n'.format(ncells))
-            self._write_out_all_fields_in_dict(self.cellFields, vtkFile)
+            nContactEdges = self.contactEdges.shape[0]
+            # contact edges are written as extra cells: give them default records
+            cellFields = {}
+            for field in self.cellFields:
+                fieldRecord = self.cellFields[field]
+                for e in range(nContactEdges):
+                    uNew = np.vstack( (fieldRecord.data,
+                                       default_values(fieldRecord.fieldType, fieldRecord.dataType)) )
+                    fieldRecord = self.VTKFieldRecord(uNew,
+                                                      fieldRecord.fieldType,
+                                                      fieldRecord.dataType)
+                cellFields[field] = fieldRecord
+            vtkFile.write('CELL_DATA {}\n'.format(ncells + nContactEdges))
+            self._write_out_all_fields_in_dict(cellFields, vtkFile)
         
         
     def _write_out_all_fields_in_dict(self, fieldDict, vtkFile):
